@@ -1,15 +1,5 @@
 #!/bin/bash
 # MANIFEST.setup_cmd: vendor the cached crates and pre-build every harness binary, offline.
-set -u
-cd "$(dirname "$0")/.."
+cd "$(dirname "$0")/.." || exit 2
 python3 tools/vendor.py || exit 2
-python3 - <<'PY'
-import importlib.util, sys, os
-spec = importlib.util.spec_from_loader("check", loader=None)
-src = open("check").read()
-mod = type(sys)("check"); mod.__file__ = os.path.abspath("check")
-exec(compile(src.replace('if __name__ == "__main__":\n    main()', ''), "check", "exec"), mod.__dict__)
-mod.build_all(mod.HASH4, "lite", 4)
-mod.build_all(mod.ALL8, "full", 4)
-print("setup: all harness binaries built")
-PY
+exec ./check --setup
